@@ -40,9 +40,10 @@ func handleZADD(params internal.HandlerFuncParams) ([]byte, error) {
 	var changed interface{} = nil
 	var incr interface{} = nil
 
-	// Find the first valid score and this will be the start of the score/member pairs
+	// Find the first valid score and this will be the start of the score/member pairs.
+	// The command name and the key are never scores, whatever they look like.
 	var membersStartIndex int
-	for i := 0; i < len(params.Command); i++ {
+	for i := 2; i < len(params.Command); i++ {
 		if membersStartIndex != 0 {
 			break
 		}
